@@ -10,6 +10,7 @@ pub mod meld_audit;
 pub mod orch;
 pub mod resolve_api;
 pub mod time_travel;
+pub mod maintenance;
 pub mod delta_roundtrip;
 pub mod deltaid;
 pub mod history;
@@ -43,6 +44,7 @@ pub fn run(name: &str, thorough: bool, seed: u64) -> Option<Report> {
         "meld_audit" => Some(meld_audit::run(thorough, seed)),
         "resolve_api" => Some(resolve_api::run(thorough, seed)),
         "time_travel" => Some(time_travel::run(thorough, seed)),
+        "maintenance" => Some(maintenance::run(thorough, seed)),
         _ => None,
     }
 }
@@ -67,6 +69,7 @@ pub fn replay(name: &str, case: &Value) -> Value {
         "meld_audit" => meld_audit::replay(case),
         "resolve_api" => resolve_api::replay(case),
         "time_travel" => time_travel::replay(case),
+        "maintenance" => maintenance::replay(case),
         _ => json!({"reproduced": false, "error": "unknown oracle"}),
     }
 }
